@@ -1,16 +1,24 @@
 #!/bin/bash
-# tools/benign_rerun.sh — every benign refactoring under /verif/benign must leave its group's checks silent (quick tier).
+# tools/benign_rerun.sh [jobs] — every benign change under /verif/benign must leave its group's checks silent (quick tier).
 cd "$(dirname "$0")/.."
-declare -A G=([B1]="C01,C08,C09" [B2]="C02,C03,C11,C12,C13" [B3]="C04,C05,C15,C16" [B4]="C06,C07,C17,C18" [B5]="C14,C19,C20" [D1]="C01,C08,C09,C10" [D2]="C02,C03,C11,C12,C13,C10" [D3]="C04,C05,C15,C16,C10" [D4]="C06,C07,C17,C18,C10" [D5]="C14,C19,C20,C10")
-bad=0
-for g in B1 B2 B3 B4 B5 D1 D2 D3 D4 D5; do
-  for p in benign/$g/patch*.diff; do
-    out=$(tools/mutant.sh "$p" "${G[$g]}" quick 2>&1)
-    if echo "$out" | grep -q "PATCH DOES NOT APPLY"; then echo "$p: does not apply to the current tree (skipped)"; continue; fi
-    n=$(echo "$out" | grep -c "^VIOLATION")
-    e=$(echo "$out" | grep "^== " | grep -vc "exit 0")
-    echo "$p: $n VIOLATION lines, $e checks with non-zero exit"
-    if [ "$n" != 0 ] || [ "$e" != 0 ]; then bad=1; echo "$out" | grep "^VIOLATION" | head -3 | cut -c1-300; fi
-  done
-done
-exit $bad
+J=${1:-4}
+export VERIF_JOBS=$((16 / J > 0 ? 16 / J : 1))
+one() {
+  p=$1
+  g=$(basename "$(dirname "$p")")
+  case $g in
+    B1) ids=C01,C08,C09;; B2) ids=C02,C03,C11,C12,C13;; B3) ids=C04,C05,C15,C16;; B4) ids=C06,C07,C17,C18;; B5) ids=C14,C19,C20;;
+    D1) ids=C01,C08,C09,C10;; D2) ids=C02,C03,C11,C12,C13,C10;; D3) ids=C04,C05,C15,C16,C10;; D4) ids=C06,C07,C17,C18,C10;; D5) ids=C14,C19,C20,C10;;
+  esac
+  out=$(tools/mutant.sh "$p" "$ids" quick 2>&1)
+  if echo "$out" | grep -q "PATCH DOES NOT APPLY"; then echo "$p: does not apply to the current tree (skipped)"; return; fi
+  n=$(echo "$out" | grep -c "^VIOLATION")
+  e=$(echo "$out" | grep "^== " | grep -vc "exit 0")
+  echo "$p: $n VIOLATION lines, $e checks with non-zero exit"
+  [ "$n" = 0 ] && [ "$e" = 0 ] || echo "$out" | grep "^VIOLATION" | head -3 | cut -c1-300
+}
+export -f one
+ls benign/*/patch*.diff | xargs -P "$J" -I{} bash -c 'one {}' | tee /tmp/benign_rerun.$$
+bad=$(grep -vc ": 0 VIOLATION lines, 0 checks with non-zero exit\|skipped" /tmp/benign_rerun.$$)
+rm -f /tmp/benign_rerun.$$
+exit $((bad > 0))
